@@ -16,25 +16,21 @@ Proof. exact stats_totals. Qed.
 Print Assumptions C14_stats_totals.
 
 (* Redundant files/bytes are those of the sub-groups (replicas as the replication filter counts
-   them) beyond the first max(rf,1) — for every list of groups none of which is in the K8 class. *)
-Theorem C14_stats_redundant_except_K8 : forall flt gs, Forall (fun g => ~ K8_class g flt) gs ->
+   them: hard links of one file are one replica) beyond the first max(rf,1) — for every filter and
+   every list of groups.  (Until fix 3bd9c91 the code's fast path counted paths: former finding K8.) *)
+Theorem C14_stats_redundant : forall flt gs,
   s_red_files (stats_of flt gs) = fold_right (fun g a => redundant_spec g flt + a) 0 gs /\
   s_red_size (stats_of flt gs) = fold_right (fun g a => glen g * redundant_spec g flt + a) 0 gs.
 Proof. exact stats_redundant_spec. Qed.
-Print Assumptions C14_stats_redundant_except_K8.
+Print Assumptions C14_stats_redundant.
 
-(* K8 (known finding): without --isolate the code takes a fast path that counts PATHS beyond rf, so a
-   group containing hard links reports more redundant files than the replication filter defines. *)
+(* regression example of the former K8: a,b hard links + copy c, rf 1: one redundant file *)
 Definition k8_group : group :=
   mkGroup 4 [1;2;3;4;5;6;7;8;9;10;11;12;13;14;15;16]
           [mkFile [[47];[97]] (1,1); mkFile [[47];[98]] (1,1); mkFile [[47];[99]] (1,2)].
-Definition k8_filter : gfilter := mkFilter (Over 1) [] true.
-Theorem C14_K8_witness : K8_class k8_group k8_filter /\ redundant_count k8_group k8_filter = 2 /\ redundant_spec k8_group k8_filter = 1.
-Proof.
-  split; [|split; vm_compute; reflexivity].
-  unfold K8_class. repeat split. cbn. intros H. inversion H as [|? ? Hn _]. apply Hn. cbn. auto.
-Qed.
-Print Assumptions C14_K8_witness.
+Example C14_K8_regression : redundant_count k8_group (mkFilter (Over 1) [] true) = 1 /\
+                            redundant_count k8_group (mkFilter (Over 1) [] false) = 2.
+Proof. vm_compute. split; reflexivity. Qed.
 
 (* The missing count is rf minus the replica count, and a group is reported by an
    under-replication filter iff something is missing; by an over-replication filter iff something
@@ -95,9 +91,4 @@ Example C14_isolate_example :
   map fpath (sort_by_path [[[47];[114;49]]; [[47];[114;50]]] ex_files)
   = [[[47];[114;49];[97]]; [[47];[114;49];[122]]; [[47];[114;50];[120]]; [[47];[111]]].
 Proof. vm_compute. reflexivity. Qed.
-Example C14_not_K8_example :
-  ~ K8_class (mkGroup 4 [] ex_files) (mkFilter (Over 1) [] true) /\ redundant_count (mkGroup 4 [] ex_files) (mkFilter (Over 1) [] true) = 3.
-Proof.
-  split; [|vm_compute; reflexivity]. unfold K8_class. cbn [roots by_id gfiles]. intros (_ & _ & H). apply H.
-  cbn. repeat constructor; cbn; intuition congruence.
-Qed.
+
